@@ -65,6 +65,15 @@ Theorem replay_record_id : forall sh h, wf_shape sh -> chain sh (fresh sh) 0 h -
 Proof. exact DeltaFacts.replay_record_id_gen. Qed.
 Print Assumptions replay_record_id.
 
+(* For sets the hypothesis [tick] is not an assumption on the history at all: EVERY non-empty
+   sequence of add / remove / touch / clear calls on a good state is a [tick] — or it is exactly
+   an empty tick on an already valid set (finding B below), which leaves the set as it was. *)
+Theorem every_set_script_ticks_or_is_empty : forall pre ops, good TSS pre -> ops <> [] ->
+  let live := run_set ops pre in
+  tick TSS pre live \/ (exists el, pre = NSet false true el [] [] /\ live = NSet true true el [] []).
+Proof. exact DeltaFacts.tss_every_script. Qed.
+Print Assumptions every_set_script_ticks_or_is_empty.
+
 (* Non-vacuity: concrete histories produced by the scripted mutations of the driver satisfy the
    hypotheses — nested dictionaries, removals, child-only ticks, remove and re-add of a key in one
    cycle, gaps, bundles, lists, windows, signals. *)
